@@ -57,7 +57,8 @@
 //     initcode or when called afterwards in the same transaction), payments to an
 //     account after it self-destructed, SSTOREs over four slots (half of them
 //     present at genesis, so that slots are deleted and storage tries collapse),
-//     BLOCKHASH of the last three blocks stored to storage, and STOP/REVERT/
+//     BLOCKHASH of the last three blocks and BALANCE/EXTCODESIZE/EXTCODEHASH/
+//     EXTCODECOPY of pool members (stored or logged), and STOP/REVERT/
 //     INVALID/SELFDESTRUCT terminators (DrawScenario).
 //   - coinbase per block: a fresh address, a sender, a contract, or the zero address.
 //
